@@ -160,4 +160,39 @@ theorem transpose_entry {β : Type} (n : Nat) (m : List (List β)) (r j : Nat) (
   simp only [Option.bind_some]
   exact filterMap_col m r j hrow
 
+/-! ## (B) schedules -/
+
+/-- **allreduce recursive doubling = the spec, for every communicator size** (power of two or not: the pre/post phase
+of allreduce-rdb.cpp is part of the model) and every rank, for any ASSOCIATIVE operator: the schedule keeps the rank
+order, commutativity is not needed.  `x r` = send buffer of rank `r`. -/
+theorem allreduce_rdb_eq_spec (op : α → α → α) (hA : ∀ a b c, op (op a b) c = op a (op b c)) (x : Nat → List α)
+    (np r : Nat) (hnp : 1 ≤ np) (hr : r < np) :
+    some (allreduceRdb (zipOp op) x np r) = reduceAll op ((List.range np).map x) := by
+  have hP1 : 2 ^ np.log2 ≤ np := Nat.log2_self_le (by omega)
+  have hP2 : np < 2 ^ (np.log2 + 1) := Nat.lt_log2_self
+  rw [Nat.pow_succ] at hP2
+  have hPpos : 0 < 2 ^ np.log2 := Nat.pos_of_ne_zero (by simp)
+  obtain ⟨n, rfl⟩ : ∃ n, np = n + 1 := ⟨np - 1, by omega⟩
+  rw [reduceAll_range]
+  congr 1
+  have key : ∀ nr, nr < 2 ^ (n + 1).log2 →
+      rdbVal (zipOp op) (rdbPre (zipOp op) x (n + 1 - 2 ^ (n + 1).log2)) (n + 1).log2 nr = segFold (zipOp op) x 0 n := by
+    intro nr hnr
+    rw [rdbVal_eq_segFold (zipOp op) (zipOp_assoc op hA), Nat.mod_eq_of_lt hnr, Nat.sub_self,
+      segFold_rdbPre (zipOp op) (zipOp_assoc op hA)]
+    have h1 : ¬ (2 ^ (n + 1).log2 - 1 < n + 1 - 2 ^ (n + 1).log2) := by omega
+    simp only [h1, if_false]
+    congr 1; omega
+  unfold allreduceRdb pof2le
+  simp only
+  split
+  · exact key _ (by omega)
+  · exact key _ (by omega)
+
+/-- the model writes `newrank ^ mask` arithmetically; finite sanity check (enumeration, not a proof for all sizes) -/
+example : ∀ nr < 64, ∀ k < 6, rdbPartner nr k = nr ^^^ 2 ^ k := by decide
+
+/-- non-vacuity: 6 ranks (not a power of two), `+` on Int -/
+example : allreduceRdb (zipOp (· + ·)) (fun r => [(r : Int), 10 * r]) 6 3 = [15, 150] := by decide
+
 end SgVerif.C29
